@@ -822,6 +822,8 @@ func (fe *FnExec) assignLvalue(ctx *EvalCtx, st *State, x *CExpr, nv Val) {
 		if rv, ok := v.(RefV); ok {
 			if t, ok := fe.ifaceType[rv.T]; ok {
 				v = PtrV{Base: rv.T, Prefix: typeName(t), Pointee: t}
+			} else if bv, ok := fe.boxed[rv.T]; ok {
+				v = bv
 			}
 		}
 		if p, ok := v.(PtrV); ok {
